@@ -282,21 +282,11 @@ Record abs_filter := mkAbs {
   af_exception : bool; af_left : option left_anchor; af_pattern : str; af_right : bool;
   af_options : option (list nf_option) }.
 
-(* AbstractNetworkFilter::parse — every slice is explicit *)
-Definition abstract_parse (line : str) : pr abs_filter :=
-  let len := length line in
-  let exception := prefixb (bs "@@") line in
-  let fis0 := if exception then 2%nat else O in
-  eo <-? match rfind_byte c_DOLLAR line with
-         | Some oi =>
-             raw <- slice_from line (S oi) ;;
-             match parse_filter_options raw with
-             | inl os => ret (oi, Some os)
-             | inr e => fail e
-             end
-         | None => ret (len, None)
-         end ;;
-  let fie0 := fst eo in let options := snd eo in
+(* AbstractNetworkFilter::parse — every slice is explicit.  [abstract_tail] is the part after
+   the options have been split off: fis0 = filter_index_start (0, or 2 after "@@"),
+   fie0 = filter_index_end (len, or the offset of the last '$'). *)
+Definition abstract_tail (line : str) (exception : bool) (fis0 fie0 : nat)
+           (options : option (list nf_option)) : pr abs_filter :=
   r1 <- slice_from line fis0 ;;
   sl <- (if prefixb (bs "||") r1 then Ok ((fis0 + 2)%nat, Some DoublePipe)
          else r2 <- slice_from line fis0 ;;
@@ -309,6 +299,19 @@ Definition abstract_parse (line : str) : pr abs_filter :=
   let fie := if right then (fie0 - 1)%nat else fie0 in
   pattern <- slice line fis fie ;;
   ret (mkAbs exception left pattern right options).
+
+Definition abstract_parse (line : str) : pr abs_filter :=
+  let exception := prefixb (bs "@@") line in
+  let fis0 := if exception then 2%nat else O in
+  match rfind_byte c_DOLLAR line with
+  | Some oi =>
+      raw <- slice_from line (S oi) ;;
+      match parse_filter_options raw with
+      | inl os => abstract_tail line exception fis0 oi (Some os)
+      | inr e => fail e
+      end
+  | None => abstract_tail line exception fis0 (length line) None
+  end.
 
 (* ------------------------------------------------------------------ network.rs: NetworkFilter::parse *)
 Definition mset (m bit : N) (v : bool) : N := if v then N.lor m bit else N.ldiff m bit.
@@ -432,8 +435,34 @@ Definition hostname_step (pattern : str) (mask : N) (is_regex : bool) : res (N *
     | None => Ok (mask, Some pattern, fie)
     end.
 
-Definition network_parse (line : str) : pr net_rule :=
-  parsed <-? abstract_parse line ;;
+(* remove a trailing '*', then a leading '*' *)
+Definition strip_stars (pattern : str) (mask : N) (fis : nat) : res (N * nat * nat) :=
+  let fie := length pattern in
+  let fie := if Nat.ltb fis fie && suffixb [c_STAR] pattern then (fie - 1)%nat else fie in
+  lead <- (if Nat.ltb fis fie then r <- slice_from pattern fis ;; Ok (prefixb [c_STAR] r) else Ok false) ;;
+  Ok (if lead then mset mask M_IS_LEFT_ANCHOR false else mask, if lead then S fis else fis, fie).
+
+Definition final_filter (pattern : str) (mask : N) (fis fie : nat) : res (N * option str) :=
+  if Nat.ltb fis fie
+  then f <- slice pattern fis fie ;;
+       Ok (mset mask M_IS_REGEX (check_is_regex f),
+           Some (if mhas mask M_MATCH_CASE then f else lower_str f))
+  else Ok (mask, None).
+
+(* the offset pipeline of NetworkFilter::parse on the pattern: (mask, hostname, filter) *)
+Definition pattern_pipeline (pattern : str) (mask : N) (hostname_anchor : bool) (is_regex : bool)
+  : res (N * option str * option str) :=
+  hs <- (if hostname_anchor then hostname_step pattern mask is_regex else Ok (mask, None, O)) ;;
+  let '(mask, hostname, fis) := hs in
+  st <- strip_stars pattern mask fis ;;
+  let '(mask, fis, fie) := st in
+  ps <- protocol_step pattern mask fis fie ;;
+  let '(mask, fis) := ps in
+  flt <- final_filter pattern mask fis fie ;;
+  let '(mask, filter) := flt in
+  Ok (mask, hostname, filter).
+
+Definition network_build (line : str) (parsed : abs_filter) : pr net_rule :=
   let mask0 := N.lor (N.lor M_THIRD_PARTY M_FIRST_PARTY) (N.lor M_FROM_HTTPS M_FROM_HTTP) in
   let mask0 := if af_exception parsed then mset mask0 M_IS_EXCEPTION true else mask0 in
   acc <-? match af_options parsed with
@@ -464,25 +493,9 @@ Definition network_parse (line : str) : pr net_rule :=
   let complete := prefixb [c_SLASH] pattern && suffixb [c_SLASH] pattern && Nat.ltb 1 (length pattern) in
   if negb complete && mhas mask M_MATCH_CASE then fail "MatchCaseWithoutFullRegex" else
   let mask := if complete then mset mask M_IS_COMPLETE_REGEX true else mask in
-  let fie := length pattern in
-  hs <- (match af_left parsed with
-         | Some DoublePipe => hostname_step pattern mask is_regex
-         | _ => Ok (mask, None, O) end) ;;
-  let '(mask, hostname, fis) := hs in
-  (* remove trailing '*' *)
-  let fie := if Nat.ltb fis fie && suffixb [c_STAR] pattern then (fie - 1)%nat else fie in
-  (* remove leading '*' *)
-  lead <- (if Nat.ltb fis fie then r <- slice_from pattern fis ;; Ok (prefixb [c_STAR] r) else Ok false) ;;
-  let mask := if lead then mset mask M_IS_LEFT_ANCHOR false else mask in
-  let fis := if lead then S fis else fis in
-  ps <- protocol_step pattern mask fis fie ;;
-  let '(mask, fis) := ps in
-  flt <- (if Nat.ltb fis fie
-          then f <- slice pattern fis fie ;;
-               Ok (mset mask M_IS_REGEX (check_is_regex f),
-                   Some (if mhas mask M_MATCH_CASE then f else lower_str f))
-          else Ok (mask, None)) ;;
-  let '(mask, filter) := flt in
+  pp <- pattern_pipeline pattern mask
+          (match af_left parsed with Some DoublePipe => true | _ => false end) is_regex ;;
+  let '(mask, hostname, filter) := pp in
   let hostname_decoded := match hostname with
                           | Some h => match decode_hostname mask h with
                                       | inl x => inl (Some x) | inr e => inr e end
@@ -499,6 +512,9 @@ Definition network_parse (line : str) : pr net_rule :=
   | inl h => ret (mkNet mask filter h (a_modifier acc) (a_tag acc) (a_dom acc) (a_ndom acc) line)
   end.
 
+Definition network_parse (line : str) : pr net_rule :=
+  parsed <-? abstract_parse line ;; network_build line parsed.
+
 (* INVALID_CHARS of parse_hosts_style: the ASCII punctuation below (byte values) or any \s character *)
 Definition invalid_host_bytes : list N :=
   [47; 94; 42; 33; 63; 36; 38; 40; 41; 123; 125; 91; 93; 43; 61; 126; 96; 124; 64; 44; 39; 34; 62; 60; 58; 59].
@@ -508,15 +524,17 @@ Fixpoint has_invalid_host_char (s : str) : bool :=
   | b :: r => memN b invalid_host_bytes || Nat.ltb 0 (ws_len s) || has_invalid_host_char r
   end.
 
-(* the text handed to NetworkFilter::parse by parse_hosts_style *)
+(* hostname normalisation of parse_hosts_style: lower case, leading "www." removed, punycode *)
+Definition norm_host (hostname : str) : option str :=
+  let n := trim_start_matches (bs "www.") (to_lowercase lower hostname) in
+  if all_ascii n then Some n else idna n.
+(* the text handed to NetworkFilter::parse by parse_hosts_style:
+   let mut hostname = "||".to_string(); hostname.push_str(..); hostname.push('^') *)
 Definition hosts_rule_text (hostname : str) : str + string :=
-  let l := to_lowercase lower hostname in
-  let n := trim_start_matches (bs "www.") l in
-  if all_ascii n then inl (bs "||" ++ n ++ bs "^")
-  else match idna n with
-       | Some a => inl (bs "||" ++ a ++ bs "^")
-       | None => inr "PunycodeError"%string
-       end.
+  match norm_host hostname with
+  | Some a => inl (bs "||" ++ a ++ bs "^")
+  | None => inr "PunycodeError"%string
+  end.
 
 Definition parse_hosts_style (hostname : str) : pr net_rule :=
   if has_invalid_host_char hostname then fail "FilterParseError" else
